@@ -136,3 +136,132 @@ pub fn budget_drive(args: &[String]) {
     }
     w.finish();
 }
+
+// ------------------------------------------------------------------------------------------ C05
+fn alloc_events(ev: &[Event]) -> Vec<J> {
+    let mut res = vec![];
+    for e in ev {
+        match e {
+            Event::Alloc { charge, ok, allocated, live_bytes, .. } => {
+                res.push(json!({"e": "Alloc", "charge": charge, "ok": ok, "allocated": allocated,
+                                "live": live_bytes.map(|x| x as i64).unwrap_or(-1)}))
+            }
+            Event::Dealloc { charge, allocated } => res.push(json!({"e": "Dealloc", "charge": charge, "allocated": allocated})),
+            Event::GcBegin { objects, allocated } => res.push(json!({"e": "GcBegin", "objects": objects, "allocated": allocated})),
+            Event::GcEnd { objects, allocated, live_bytes } => res.push(json!({"e": "GcEnd", "objects": objects, "allocated": allocated,
+                                "live": live_bytes.map(|x| x as i64).unwrap_or(-1)})),
+            Event::Clear { allocated } => res.push(json!({"e": "Clear", "allocated": allocated})),
+            _ => {}
+        }
+    }
+    res
+}
+
+/// alloc-drive --profile P --seed S --n N --out FILE : programs under swept memory limits
+pub fn alloc_drive(args: &[String]) {
+    let seed = arg_num(args, "--seed", 1);
+    let n = arg_num(args, "--n", 30) as usize;
+    let profile = arg_val(args, "--profile").unwrap_or("alloc").to_string();
+    let out = arg_val(args, "--out").expect("--out");
+    let start = arg_num(args, "--start-case", 0) as usize;
+    let append = arg_num(args, "--append", 0) == 1;
+    let mut w = TraceWriter::open(out, append, 20_000);
+    let limits = [3_000usize, 6_000, 12_000, 40_000, 400 * 1024];
+    for id in start..n {
+        let mut rng = Rng::new(seed.wrapping_mul(7_919_117).wrapping_add(id as u64));
+        let p = Gen::new(&mut rng, Profile::named(&profile)).program();
+        let compiled = match cao_lang::compiler::compile(p.to_module(), None) {
+            Ok(c) => c,
+            Err(_) => continue,
+        };
+        for limit in limits {
+            let pj = json!({"id": id, "profile": profile, "prog": p.to_json(), "limit": limit});
+            w.begin(id, &pj);
+            let r = guarded(|| {
+                let mut vm = make_vm(&p, &RunCfg { max_instr: 3_000_000 });
+                vm.runtime_data.set_memory_limit(limit);
+                verif::reset(true);
+                verif::with_hooks(|h| h.live_bytes_on_failure = true);
+                let res = vm.run(&compiled);
+                let out = match &res {
+                    Ok(()) => "Ok".to_string(),
+                    Err(e) => payload_kind(&e.payload),
+                };
+                vm.clear();
+                let ev = verif::take_events();
+                verif::reset(false);
+                (ev, out)
+            });
+            match r {
+                Ok((ev, outc)) => {
+                    w.line(json!({"e": "Reset", "case": id, "limit": limit, "profile": profile}));
+                    let evs = alloc_events(&ev);
+                    // keep the files bounded: long runs are cut after a generous prefix (always at a safe point)
+                    for r in evs.into_iter().take(60_000) {
+                        w.line(r);
+                    }
+                    w.end(json!({"e": "RunEnd", "out": outc}));
+                }
+                Err(msg) => w.end(json!({"e": "Panic", "case": id, "msg": msg})),
+            }
+        }
+    }
+    w.finish();
+}
+
+// ------------------------------------------------------------------------------------------ C02
+/// gc-drive --profile P --seed S --n N --out FILE --schedules K
+/// every program is run without forced collections, with a collection at EVERY allocation, and with
+/// K seeded random subsets of allocation numbers; each run is one record for CardSemCheck (the
+/// reference semantics knows no collector, so every placement must give the specified outcome)
+pub fn gc_drive(args: &[String]) {
+    let seed = arg_num(args, "--seed", 1);
+    let n = arg_num(args, "--n", 30) as usize;
+    let profile = arg_val(args, "--profile").unwrap_or("alloc").to_string();
+    let out = arg_val(args, "--out").expect("--out");
+    let start = arg_num(args, "--start-case", 0) as usize;
+    let append = arg_num(args, "--append", 0) == 1;
+    let k = arg_num(args, "--schedules", 3) as usize;
+    let mut w = TraceWriter::open(out, append, 30_000);
+    for id in start..n {
+        let mut rng = Rng::new(seed.wrapping_mul(7_919_117).wrapping_add(id as u64));
+        let p = Gen::new(&mut rng, Profile::named(&profile)).program();
+        let compiled = match cao_lang::compiler::compile(p.to_module(), None) {
+            Ok(c) => c,
+            Err(_) => continue,
+        };
+        // number of allocations of an undisturbed run
+        w.begin(id, &json!({"id": id, "profile": profile, "prog": p.to_json(), "schedule": "undisturbed", "at": []}));
+        verif::reset(false);
+        let mut vm = make_vm(&p, &RunCfg::default());
+        let _ = guarded(|| vm.run(&compiled));
+        let allocs = verif::with_hooks(|h| h.alloc_count);
+        drop(vm);
+        let mut schedules: Vec<(String, bool, Vec<u64>)> = vec![("none".into(), false, vec![]), ("every".into(), true, vec![])];
+        for j in 0..k {
+            let m = 1 + rng.below(8);
+            let set: Vec<u64> = (0..m).map(|_| rng.below(allocs.max(1) as usize) as u64).collect();
+            schedules.push((format!("random{j}"), false, set));
+        }
+        for (name, every, set) in schedules {
+            let pj = json!({"id": id, "profile": profile, "prog": p.to_json(), "schedule": name, "at": set});
+            w.begin(id, &pj);
+            let obs = match guarded(|| {
+                verif::reset(false);
+                verif::with_hooks(|h| {
+                    h.force_gc_every = every;
+                    h.force_gc_at = set.iter().copied().collect();
+                });
+                let o = observe_compiled(&p, &compiled, &RunCfg::default());
+                verif::reset(false);
+                o
+            }) {
+                Ok(o) => o,
+                Err(msg) => json!({"st": "panic", "kind": msg, "globals": {}, "log": [], "trace": []}),
+            };
+            w.end(json!({"id": id, "profile": format!("{profile}/gc:{name}"), "prog": p.to_json(), "obs": obs, "cmp_loc": false,
+                         "schedule": name, "at": set, "allocations": allocs}));
+        }
+    }
+    w.finish();
+}
